@@ -210,7 +210,11 @@ def run(ctx):
         st = refscore.Stats(built.alldocs, {n: getattr(f.format, "field_boost", 1.0) if f.format else 1.0 for n, f in schema.items()})
         is_final = "final" in wname
         try:
-            with built.ix.searcher(weighting=wobj) as s:
+            psz = model.partsize_for(idx)
+            if psz is not None:
+                ctx.count("c09.small_array_parts")
+                wb["array_partsize(default of ArrayUnionMatcher)"] = psz
+            with model.array_partsize(psz), built.ix.searcher(weighting=wobj) as s:
                 key_of = lambda dn: s.stored_fields(dn)["id"]  # noqa
                 # ---- term monitor
                 for f, vocab in (("t", model.VOCAB), ("u", model.VOCAB[:8]), ("k", model.KVOCAB)):
